@@ -653,6 +653,30 @@ def rule_shared_tail(db: ProgramDB) -> List[Instance]:
                         f"`{first_init.src()}` runs after a suspension point ({' '.join(cfg_i.describe_path(late)[-2:])}): an element another iteration pulls while this one "
                         f"is still replaying the memo snapshot is in neither the snapshot nor the part of the record that is replayed, so a second "
                         f"evaluation started on a part-pulled domain loses it", line=first_init.lineno))
+    if replayed:
+        # while this iteration was suspended at a yield another one may have pulled: before it pulls again, and before it ends, it
+        # compares its position with the length of the record
+        def compares_position(nd):
+            t = getattr(nd.stmt, "test", None) if nd.kind == "test" else None
+            return isinstance(t, ast.Compare) and any(isinstance(x, ast.Name) and x.id in idx_names for x in ast.walk(t)) and \
+                any(isinstance(c, ast.Call) and dotted(c.func) == "len" and c.args and unparse(c.args[0]) == rec for c in ast.walk(t))
+        pull_heads = [nd for nd in cfg_i.nodes if nd.kind == "for" and isinstance(nd.stmt.iter, ast.Attribute) and nd.stmt.iter.attr == "iterable"]
+        bad_tail = None
+        for h_ in pull_heads:
+            body_ids = {id(x) for b in h_.stmt.body for x in ast.walk(b)}
+            for y in [nd for nd in cfg_i.nodes if nd.has_yield and nd.ast is not None and id(nd.ast) in body_ids]:
+                p_ = cfg_i.find_path(y.id, lambda x, h_=h_: x.id == h_.id, kinds=("n",), blocked=compares_position)
+                if p_ is not None:
+                    bad_tail = ("pulls again", y, p_)
+            p_end = cfg_i.find_path(h_.id, lambda x: x.id == cfg_i.exit or x.kind == "return", kinds=("n",), blocked=compares_position,
+                                    edge_ok=lambda e, h_=h_: not (e.src == h_.id and e.label == "iter"))
+            if p_end is not None and bad_tail is None:
+                bad_tail = ("ends", h_, p_end)
+        out.append(inst("SHARED-TAIL", VIOLATION if bad_tail else HOLDS, m, "HashedIterable.__iter__[record re-read after every suspension]",
+                        f"after `{bad_tail[1].src()[:40]}` the iterator {bad_tail[0]} without comparing its position with the record of pulled elements "
+                        f"({' '.join(cfg_i.describe_path(bad_tail[2])[-2:])}): what another iteration pulled while this one was suspended (an outer and a nested term "
+                        f"over one pool variable) is never replayed - Handle(From(pool), part_of=Container(From(pool), size=3)) returns ['h1'] instead of three"
+                        if bad_tail else "after every yield, and before it ends, the iterator compares its position with the record", line=m.lineno))
     ok = bool(replayed)
     out.append(inst("SHARED-TAIL", HOLDS if ok else VIOLATION, m, "HashedIterable.__iter__[other iterations' pulls are replayed]",
                     f"the iterator replays `{sorted(replayed)[0]}` by position" if ok else
